@@ -23,7 +23,7 @@ EXPLANATION = (
     "floor for positive and ceil for negative exponents in steps of 3, and changes units only by renaming one entry; "
     "_get_reduced_units skips already eliminated units with continue, merges by exponent/ratio and restarts; "
     "_get_dimensionality_ratio answers 1 / None / the common ratio. Does not decide value equality, the [1,1000) range "
-    "or the integer programme of to_preferred.")
+    "or the integer programme of to_preferred (the simple-match shortcut of to_preferred is decided: proportional exponents by cross-multiplication).")
 EXPLANATION += ' Also decided (rules added after the second round of seeded changes): no unit-rewriting helper other than the ito* forms calls an in-place conversion primitive; the base-units memo read by to_base_units is written under its read guard with the substituted units.'
 
 
@@ -66,6 +66,42 @@ def to_compact_rule(ck, ix):
     ck.check("index = bisect.bisect_left(SI_powers, power)" in norm(f.node) and "if index >= len(SI_bases)" in norm(f.node), "G-PROV", "to_compact|prefix-lookup", f.loc(), "prefix looked up by bisect, clamped", "the prefix lookup by bisect/clamp changed")
     ck.check("q_base = quantity.to(unit)" in norm(f.node) and "infer_base_unit(quantity, registry=quantity._REGISTRY)" in norm(f.node), "G-PROV", "to_compact|unprefixed-base", f.loc(), "converted to the unprefixed unit first", "to_compact no longer converts to the unprefixed unit first")
 
+
+
+def preferred_simple_match_rule(ck, ix):
+    """_get_preferred.find_simple accepts a preferred unit when the quantity's dimension exponents are proportional
+    to the unit's: s_tail[i]/s_head == p_tail[i]/p_head, tested by cross-multiplication.  Each side of the equality is
+    a product of one exponent of the quantity and one of the unit, one taken from the head and one from the tail; a
+    power (or any other operator) accepts non-proportional exponents and the returned unit has the wrong dimension."""
+    m = ix.module(QTO)
+    fs = [g for g in m.all_functions if g.name == "find_simple"]
+    ck.floor("G-PROV", len(fs), 1, "find_simple")
+    for f in fs:
+        ck.analysed(f)
+        cmps = [c for c in walk_local(f.node) if isinstance(c, ast.Compare) and len(c.ops) == 1 and isinstance(c.ops[0], ast.Eq)
+                and "exps" in norm(c.left) and "exps" in norm(c.comparators[0]) and "[" in norm(c)]
+        ck.check(len(cmps) == 1, "G-PROV", "find_simple|proportionality-test-present", f.loc(), "one proportionality test", f"{len(cmps)} exponent proportionality tests found")
+        for c in cmps:
+            sides = [c.left, c.comparators[0]]
+            ok = True
+            why = ""
+            for sd in sides:
+                if not (isinstance(sd, ast.BinOp) and isinstance(sd.op, ast.Mult)):
+                    ok, why = False, f"`{norm(sd)}` is not a product"
+                    break
+                if any(isinstance(x, ast.BinOp) and not isinstance(x.op, ast.Mult) for x in ast.walk(sd)):
+                    ok, why = False, f"`{norm(sd)}` contains an operator other than *"
+                    break
+                names = sorted(n.id for n in ast.walk(sd) if isinstance(n, ast.Name) and "exps" in n.id)
+                who = sorted(n[0] for n in names)            # 's' / 'p'
+                part = sorted("head" if "head" in n else "tail" for n in names)
+                if who != ["p", "s"] or part != ["head", "tail"]:
+                    ok, why = False, f"`{norm(sd)}` does not multiply one exponent of the quantity with one of the unit (head x tail)"
+                    break
+            ck.check(ok, "G-PROV", "find_simple|proportional-by-cross-multiplication", f.loc(c), "s_tail[i] * p_head == p_tail[i] * s_head",
+                     f"`{norm(c)}`: {why}; exponents that are not proportional are accepted and to_preferred converts to a unit of another dimension (DimensionalityError), proportional ones such as (3, 9) vs (1, 3) are rejected")
+        pw = [b for b in walk_local(f.node) if isinstance(b, ast.BinOp) and isinstance(b.op, ast.Pow) and "preferred_unit" in norm(b.left)]
+        ck.check(len(pw) == 1 and norm(pw[0].right) in ("s_exps_head / p_exps_head",), "G-PROV", "find_simple|unit-raised-to-exponent-ratio", f.loc(), "preferred_unit ** (s_head / p_head)", "the matched unit is no longer raised to the ratio of the leading exponents")
 
 def run(ck, ix, tier):
     ck.rule("G-TWIN", "functional and in-place helper have the same branches with to <-> ito")
@@ -164,6 +200,7 @@ def run(ck, ix, tier):
     inplace_primitives_rule(ck, ix)  # only in-place forms may rescale/rebind their target
     from .. import memo as _memo
     _memo.rule_base_units_cache(ck, ix)  # to_base_units/ito_base_units read the base-units memo
+    preferred_simple_match_rule(ck, ix)
     return EXPLANATION
 
 
